@@ -32,3 +32,35 @@ func VerifC02_NumberAndGuess() {
 	}
 	_, _ = GuessSchemaType(text)
 }
+
+// VerifC02_NumberExtremes: a symbolic mantissa `d`, `d.f` or `0.f` with a
+// concrete exponent at and beyond every limit of the implementation (the
+// refusal threshold, 17-20 digit exponents of both signs, values around 2^63
+// and 2^64): NewNumber and GuessSchemaType return a value or an error.
+func VerifC02_NumberExtremes() {
+	zzverif.Expect("number", "not-number")
+	zzverif.BoundIsViolation()
+	exps := []string{"1000", "-1000", "1000001", "-1000001",
+		"99999999999999999", "-99999999999999999", "9223372036854775807", "-9223372036854775807",
+		"9223372036854775808", "-9223372036854775808", "9999999999999999999", "-9999999999999999999",
+		"18446744073709551615", "-18446744073709551615", "18446744073709551616", "-18446744073709551616"}
+	k := zzverif.IntRange("exp", 0, len(exps)-1)
+	var text []byte
+	if zzverif.Bool("negative") {
+		text = append(text, '-')
+	}
+	text = append(text, zzverif.Digit("d"))
+	if zzverif.Bool("frac") {
+		text = append(text, '.', zzverif.Digit("f"))
+	}
+	text = append(text, []byte{'e', 'E'}[zzverif.IntRange("e", 0, 1)])
+	text = append(text, exps[k]...)
+	num, err := json.NewNumber(bytes.NewBytes(text))
+	if err == nil {
+		zzverif.Reach("number")
+		zzverif.Assert(num != nil, "NewNumber returns a number or an error")
+	} else {
+		zzverif.Reach("not-number")
+	}
+	_, _ = GuessSchemaType(text)
+}
